@@ -198,7 +198,7 @@ async def execute(net, hyg, plan):
         fresh.append(s)
     for s in fresh:
         s.peer.cut("fin")
-    await world.server.close()
+    await world.stop()
     world.cleanup()
     codes = [s.flat_codes() for s in sessions]
     requested = any(st[0] in ("pasv", "epsv", "sendcut") for sc in plan["scripts"] for st in sc)
@@ -212,7 +212,7 @@ def run_plan(plan, seed=0):
         return await execute(net, hyg, plan)
     res, info = W.run(main, seed=seed, net_kwargs=dict(mss=plan.get("mss", 1460), latency=plan.get("latency", 0.001)))
     if res is None:
-        return {"inconclusive": info.get("deadlock") or info.get("error"), "trace": info.get("trace", "")}
+        return W.failed(info)
     return res
 
 
